@@ -478,6 +478,13 @@ fn ctor(s: &str) -> v2::Builder {
 }
 
 fn run_build(c: &str, ops: &str) -> String {
+    match build_bytes(c, ops) {
+        Ok(v) => format!("OK {}", hexs(&v)),
+        Err(e) => e,
+    }
+}
+
+fn build_bytes(c: &str, ops: &str) -> Result<Vec<u8>, String> {
     let mut b = ctor(c);
     if ops != "-" {
         for (i, op) in ops.split(';').enumerate() {
@@ -512,18 +519,84 @@ fn run_build(c: &str, ops: &str) -> String {
                 Ok(nb) => b = nb,
                 Err(e) => {
                     assert!(e.kind() == std::io::ErrorKind::WriteZero);
-                    return format!("ERR@{}", i);
+                    return Err(format!("ERR@{}", i));
                 }
             }
         }
     }
     match b.build() {
-        Ok(v) => format!("OK {}", hexs(&v)),
+        Ok(v) => Ok(v),
         Err(e) => {
             assert!(e.kind() == std::io::ErrorKind::WriteZero);
-            "ERR@build".to_string()
+            Err("ERR@build".to_string())
         }
     }
+}
+
+/// C07: build, then parse the built bytes and iterate their TLVs
+fn run_buildparse(c: &str, ops: &str) -> String {
+    match build_bytes(c, ops) {
+        Err(e) => e,
+        Ok(v) => {
+            let r = v2::Header::try_from(v.as_slice());
+            let tl = match &r {
+                Ok(h) => show_tlvs(h.tlvs()),
+                Err(_) => "REJ".to_string(),
+            };
+            format!("OK {} | {} | {}", hexs(&v), show_v2(&r), tl)
+        }
+    }
+}
+
+fn same(r: std::io::Result<Vec<u8>>, want: &[u8]) -> &'static str {
+    match r {
+        Ok(v) if v == want => "1",
+        Ok(_) => "0",
+        Err(_) => "E",
+    }
+}
+
+/// C13: parse, then rebuild the header from its parts in the four ways the property names
+fn run_rebuild(x: &[u8]) -> String {
+    let h = match v2::Header::try_from(x) {
+        Ok(h) => h,
+        Err(_) => return "REJ".to_string(),
+    };
+    let vc = h.version | h.command;
+    let afp = h.protocol | h.address_family();
+    let want = h.as_bytes();
+    let raw = v2::Builder::new(vc, afp)
+        .write_payload(h.address_bytes())
+        .and_then(|b| b.write_payload(h.tlv_bytes()))
+        .and_then(|b| b.build());
+    let section = v2::Builder::new(vc, afp)
+        .write_payload(h.address_bytes())
+        .and_then(|b| b.write_payload(h.tlvs()))
+        .and_then(|b| b.build());
+    let items: Vec<_> = h.tlvs().collect();
+    let items_s = if items.iter().all(|i| i.is_ok()) {
+        let its: Vec<v2::TypeLengthValue> = items.into_iter().map(|i| i.unwrap()).collect();
+        same(
+            v2::Builder::new(vc, afp)
+                .write_payload(h.address_bytes())
+                .and_then(|b| b.write_payloads(its))
+                .and_then(|b| b.build()),
+            want,
+        )
+    } else {
+        "-"
+    };
+    let value_s = if h.address_family() != v2::AddressFamily::Unspecified {
+        same(
+            v2::Builder::with_addresses(vc, h.protocol, h.addresses)
+                .write_payload(h.tlvs())
+                .and_then(|b| b.build()),
+            want,
+        )
+    } else {
+        "-"
+    };
+    format!("R={} S={} I={} V={}", same(raw, want), same(section, want), items_s, value_s)
 }
 
 fn run_write(prefill: &str, p: &str) -> String {
@@ -876,6 +949,12 @@ fn run_case(line: &str) -> String {
             let ops = f.next().unwrap();
             run_build(c, ops)
         }
+        "buildparse" => {
+            let c = f.next().unwrap();
+            let ops = f.next().unwrap();
+            run_buildparse(c, ops)
+        }
+        "rebuild" => run_rebuild(&bytes_expr(f.next().unwrap())),
         "write" => {
             let pre = f.next().unwrap();
             let p = f.next().unwrap();
